@@ -101,6 +101,17 @@ class Plain:
     def __init__(self): self.a = 1
     def __eq__(self, o): return isinstance(o, Plain)
     __hash__ = None
+class Record:
+    # attribute access goes through a dictionary (a missing name is a KeyError, not an AttributeError)
+    def __init__(self, **data): self.__dict__['_data'] = dict(data)
+    def __getattr__(self, name):
+        if name.startswith('is_'): raise AttributeError(name)
+        return self.__dict__['_data'][name]
+    def __radd__(self, o): return o + self._data.get('n', 0)
+    def __add__(self, o): return self._data.get('n', 0) + o
+    def __eq__(self, o): return isinstance(o, Record) and o.__dict__['_data'] == self.__dict__['_data']
+    def __hash__(self): return 7
+    def __repr__(self): return 'Record(n=%r)' % self.__dict__['_data'].get('n')
 class Shelf:
     # a container written the old way: indexing only (membership, iteration and reversed() fall back on it)
     def __init__(self, *items): self.items = list(items)
@@ -122,7 +133,7 @@ VALUES = ['0', '1', '-1', '2', '7', '-3', '10**20', '0.0', '1.5', '-2.5', '3.0',
           'True', 'False', '(1+2j)', "''", "'a'", "'abc'", "'x y'", "'%d items'", "'3'", "b'ab'",
           '[]', '[1, 2, 3]', "['a', 'b']", '[[1], [2]]', '()', '(1, 2)', "('a', 1)", '{}', "{'a': 1}", "{1: 'x', 2: 'y'}",
           'set()', '{1, 2}', "{'a'}", 'frozenset({1})', 'range(3)', 'None', 'Vec(3)', 'Vec(0)', 'Plain()', 'Coin(5)', 'Coin(0)', 'Color.RED', 'Color.BLUE', 'Masked()', '[1.5, None]',
-          "'ab' * 3", '255', '1e300', '-0.0', 'Shelf(1, 2, 7)', "Bag('a', 1)"]
+          "'ab' * 3", '255', '1e300', '-0.0', 'Shelf(1, 2, 7)', "Bag('a', 1)", 'Record(n=3)']
 
 CLASSES = ['int', 'str', 'bool', 'float', 'list', 'object', 'Vec', 'Plain', 'Color', '(int, str)', '(Vec, bool)', 'type(None)']
 KEYS = ['slice(0, 2)', 'slice(None, None, -1)', 'slice(1, None)']
